@@ -106,3 +106,8 @@ MUTANTS = [
                     return 0;""", 'new': """                if(!hash_update(zck, &(zck->check_chunk_hash), buf, rsize))
                     return 0;""", 'expect': 'validate_checksums'},
 ]
+
+
+# SESSION7 additions to the claim (clauses added in DESIGN section 12)
+CLAIM['technique'] += '; copy guard shared with C08'
+CLAIM['text'] += ' C11-f: the copy step of a restart uses source chunks only, under the full match guard.'
